@@ -739,8 +739,8 @@ pub fn main(ctx: &Ctx) {
     campaign(
         ctx,
         Campaign {
-            total_cases: ctx.pick(1_500, 75_000),
-            max_shrink_iters: 400,
+            total_cases: ctx.pick(1_500, 20_000),
+            max_shrink_iters: 200,
             limits: Limits { cpu_s: 30, wall_s: 120, as_bytes: 4 << 30 },
             meta: Meta {
                 rule: "1-2 participants (20% two, same domain), 3-40(80) ops: create publisher/subscriber/topic/content-filtered topic/writer/reader (parents and topics selected among live AND deleted ones), delete (any entity ever created, 1 in 6 through the wrong parent), operate (get_qos, write, take, get_default_datawriter_qos on live and deleted handles), delete_contained_entities, factory.delete_participant; results compared with the R-ENTITY tree model; after every refused deletion the target and its children are probed, at the end every entity ever created is probed and each live participant is emptied and deleted; non-trivial = at least one deletion was due to be refused or one operation addressed a deleted entity; distinct = hash of the case",
